@@ -211,6 +211,10 @@ var handPrograms = []string{
 	// a director declared BEFORE its member backends, some used only through it
 	"director origins random {\n  { .backend = origin_a; .weight = 1; }\n  { .backend = origin_b; .weight = 1; }\n  { .backend = origin_c; .weight = 1; }\n}\nbackend origin_a { .host = \"a.example.com\"; }\nbackend origin_b { .host = \"b.example.com\"; }\nbackend origin_c { .host = \"c.example.com\"; }\nbackend lonely { .host = \"d.example.com\"; }\nsub vcl_recv {\n#FASTLY RECV\n  set req.backend = origins;\n  return(lookup);\n}\n",
 	"director unused_d random {\n  { .backend = origin_a; .weight = 1; }\n  { .backend = origin_b; .weight = 1; }\n}\nbackend origin_a { .host = \"a.example.com\"; }\nbackend origin_b { .host = \"b.example.com\"; }\ndirector second client {\n  { .backend = origin_b; .weight = 1; }\n}\nsub vcl_recv {\n#FASTLY RECV\n  set req.backend = second;\n  return(lookup);\n}\n",
+	// a functional subroutine looked up through the function table (switch control, function-call statement, argument of a
+	// built-in, if-expression) from subroutines declared before and after it
+	"sub vcl_recv {\n#FASTLY RECV\n  switch (kind_recv()) {\n  case \"a\":\n    set req.http.A = \"1\";\n    break;\n  default:\n    break;\n  }\n  return(lookup);\n}\nsub kind_recv STRING {\n  return req.http.Kind;\n}\nsub vcl_deliver {\n#FASTLY DELIVER\n  set resp.http.B = std.toupper(kind_recv());\n  return(deliver);\n}\n",
+	"sub vcl_recv {\n#FASTLY RECV\n  flag_recv();\n  set req.http.C = if(flag_recv(), \"y\", \"n\");\n  return(lookup);\n}\nsub flag_recv BOOL {\n  return req.http.Flag == \"1\";\n}\nsub vcl_miss {\n#FASTLY MISS\n  if (flag_recv()) { set bereq.http.D = \"1\"; }\n  return(fetch);\n}\nsub num_recv INTEGER {\n  return 3;\n}\nsub vcl_pass {\n#FASTLY PASS\n  set bereq.http.E = std.itoa(num_recv());\n  num_recv();\n}\n",
 	// two declarations of one Fastly subroutine that call different helpers
 	"sub vcl_recv {\n#FASTLY RECV\n  call a;\n  return(lookup);\n}\nsub vcl_recv {\n#FASTLY RECV\n  call b;\n  return(lookup);\n}\nsub a { set req.http.A = \"1\"; }\nsub b { set req.http.B = \"1\"; }\n",
 }
